@@ -304,22 +304,132 @@ func fmtRisk(ctl string, args []string) string {
 // parameter says (count, mincol, column, width).
 const fmtHugeDirs = "$%&|~ABDOSTXEFG<*"
 
-func fmtCall(scope *slip.Scope, ctl string, args []string) (slip.Object, *sl.Err, string) {
-	form := slip.List{slip.Symbol("common-lisp:format"), nil, slip.String(ctl)}
+// fmtDests: where the output of a format case goes, or the function through
+// which the control string reaches the directive interpreter. "" = (format nil
+// ctl args...).
+var fmtDests = []string{"t", "stream", "closed", "fpstr", "error", "warn", "cerror", "report", "y-or-n-p"}
+
+// fmtDestParams / fmtDestArgs / fmtDestTemplArgs: the shapes of the
+// deterministic destination block.
+var (
+	fmtDestParams    = []string{"", "5", "v", "#"}
+	fmtDestArgs      = []string{"three", "str", "list3"}
+	fmtDestTemplArgs = [][]string{{}, {"three"}, {"list3"}, {"str", "list3"}}
+	fmtAmbs          = []string{"base16", "base2", "base36", "readably", "stdclosed", "ie", "thread"}
+	fmtAmbParams     = []string{"", "5"}
+	fmtAmbArgs       = []string{"big62", "double", "list3"}
+)
+
+func fmtDestN() int {
+	return len(fmtSimple)*len(fmtMods)*len(fmtDestParams)*len(fmtDestArgs)*len(fmtDests) + len(fmtTemplates)*len(fmtDestTemplArgs)*len(fmtDests) +
+		len(fmtSimple)*len(fmtMods)*len(fmtAmbParams)*len(fmtAmbArgs)*len(fmtAmbs)
+}
+
+// genFmtDest: the deterministic destination / ambient block of format.
+func genFmtDest(k int) Case {
+	nD := len(fmtDests)
+	n1 := len(fmtSimple) * len(fmtMods) * len(fmtDestParams) * len(fmtDestArgs) * nD
+	if k < n1 {
+		dest := fmtDests[k%nD]
+		k /= nD
+		a := fmtDestArgs[k%len(fmtDestArgs)]
+		k /= len(fmtDestArgs)
+		p := fmtDestParams[k%len(fmtDestParams)]
+		k /= len(fmtDestParams)
+		m := fmtMods[k%len(fmtMods)]
+		d := fmtSimple[k/len(fmtMods)]
+		args := []string{a}
+		for v := nV(p); 0 < v; v-- {
+			args = append(args, "one")
+		}
+		c := mkFmt("~"+p+m+d, args...)
+		if c.K == "fmt" {
+			c.Dest = dest
+		}
+		return c
+	}
+	k -= n1
+	n2 := len(fmtTemplates) * len(fmtDestTemplArgs) * nD
+	if k < n2 {
+		c := mkFmt(fmtTemplates[k/(len(fmtDestTemplArgs)*nD)], fmtDestTemplArgs[(k/nD)%len(fmtDestTemplArgs)]...)
+		if c.K == "fmt" {
+			c.Dest = fmtDests[k%nD]
+		}
+		return c
+	}
+	k -= n2
+	amb := fmtAmbs[k%len(fmtAmbs)]
+	k /= len(fmtAmbs)
+	a := fmtAmbArgs[k%len(fmtAmbArgs)]
+	k /= len(fmtAmbArgs)
+	p := fmtAmbParams[k%len(fmtAmbParams)]
+	k /= len(fmtAmbParams)
+	m := fmtMods[k%len(fmtMods)]
+	d := fmtSimple[k/len(fmtMods)]
+	c := mkFmt("~"+p+m+d, a)
+	if c.K == "fmt" {
+		c.Amb = amb
+		if amb == "stdclosed" {
+			c.Dest = "t"
+		}
+	}
+	return c
+}
+
+// fmtForm builds the call of a format case for its destination.
+func fmtForm(scope *slip.Scope, dest, ctl string, args []string) (slip.List, string) {
+	var vals slip.List
 	for _, a := range args {
 		po := poolIndex[a]
 		if po == nil {
-			return nil, nil, "unknown pool object " + a
+			return nil, "unknown pool object " + a
 		}
 		obj, herr := buildArg(scope, po)
 		if herr != "" {
-			return nil, nil, herr
+			return nil, herr
 		}
 		if po.Form {
-			form = append(form, obj)
+			vals = append(vals, obj)
 		} else {
-			form = append(form, slip.List{slip.Symbol("quote"), obj})
+			vals = append(vals, slip.List{slip.Symbol("quote"), obj})
 		}
+	}
+	build := func(name string) (slip.Object, string) {
+		obj, herr := buildArg(scope, poolIndex[name])
+		return slip.List{slip.Symbol("quote"), obj}, herr
+	}
+	var (
+		first slip.Object
+		herr  string
+	)
+	switch dest {
+	case "", "t":
+		if dest == "t" {
+			first = slip.True
+		}
+		return append(slip.List{slip.Symbol("common-lisp:format"), first, slip.String(ctl)}, vals...), ""
+	case "stream", "closed", "fpstr":
+		if first, herr = build(map[string]string{"stream": "out-stream", "closed": "closed-out-stream", "fpstr": "fp-str"}[dest]); herr != "" {
+			return nil, herr
+		}
+		return append(slip.List{slip.Symbol("common-lisp:format"), first, slip.String(ctl)}, vals...), ""
+	case "error", "warn", "y-or-n-p":
+		return append(slip.List{slip.Symbol("common-lisp:" + dest), slip.String(ctl)}, vals...), ""
+	case "cerror":
+		return append(slip.List{slip.Symbol("common-lisp:cerror"), slip.String("go on"), slip.String(ctl)}, vals...), ""
+	case "report":
+		// the control string is interpreted when the condition is printed
+		return slip.List{slip.Symbol("common-lisp:princ-to-string"), slip.List{slip.Symbol("common-lisp:make-condition"),
+			slip.List{slip.Symbol("quote"), slip.Symbol("simple-error")}, slip.Symbol(":format-control"), slip.String(ctl),
+			slip.Symbol(":format-arguments"), append(slip.List{slip.Symbol("common-lisp:list")}, vals...)}}, ""
+	}
+	return nil, "unknown format destination " + dest
+}
+
+func fmtCall(scope *slip.Scope, dest, ctl string, args []string) (slip.Object, *sl.Err, string) {
+	form, herr := fmtForm(scope, dest, ctl, args)
+	if herr != "" {
+		return nil, nil, herr
 	}
 	steps, budgetAt = 0, stepBudget
 	var res slip.Object
@@ -327,14 +437,39 @@ func fmtCall(scope *slip.Scope, ctl string, args []string) (slip.Object, *sl.Err
 	return res, err, ""
 }
 
-func renderFmt(ctl string, args []string) string {
+func renderFmt(ctl string, args []string) string { return renderFmtDest("", ctl, args) }
+
+func renderFmtDest(dest, ctl string, args []string) string {
 	var b strings.Builder
-	fmt.Fprintf(&b, "(format nil %q", ctl)
+	head, tail := "(format nil", ")"
+	switch dest {
+	case "t":
+		head = "(format t"
+	case "stream":
+		head = "(format (make-string-output-stream)"
+	case "closed":
+		head = "(format " + poolIndex["closed-out-stream"].Src
+	case "fpstr":
+		head = "(format " + poolIndex["fp-str"].Src
+	case "error", "warn", "y-or-n-p":
+		head = "(" + dest
+	case "cerror":
+		head = "(cerror \"go on\""
+	case "report":
+		head, tail = "(princ-to-string (make-condition 'simple-error :format-control", "))"
+	}
+	fmt.Fprintf(&b, "%s %q", head, ctl)
+	if dest == "report" {
+		b.WriteString(" :format-arguments (list")
+	}
 	for _, a := range args {
 		b.WriteByte(' ')
 		b.WriteString(poolIndex[a].Src)
 	}
-	b.WriteByte(')')
+	if dest == "report" {
+		b.WriteString(")")
+	}
+	b.WriteString(tail)
 	return b.String()
 }
 
@@ -345,30 +480,76 @@ func execFmt(x *fw.Ctx, c *Case) {
 	for _, d := range strings.Fields(dirs) {
 		x.Cover("fmt-dir:" + d)
 	}
-	markContext("fmt dirs=" + dirs)
+	via := ""
+	if c.Dest != "" {
+		x.Cover("fmt-dest:" + c.Dest)
+		via = " via=" + c.Dest
+	}
+	var (
+		res  slip.Object
+		err  *sl.Err
+		herr string
+		form slip.List
+	)
+	if c.Amb != "" {
+		x.Cover("fmt-ambient:" + c.Amb)
+		via += " amb=" + c.Amb
+	}
+	markContext("fmt dirs=" + dirs + via)
 	a0 := allocBytes()
-	_, err, herr := fmtCall(scope, c.Ctl, c.Args)
+	if form, herr = fmtForm(scope, c.Dest, c.Ctl, c.Args); herr == "" {
+		var evalForm slip.Object = form
+		if c.Amb != "" {
+			evalForm, herr = ambEnter(c.Amb, form)
+		}
+		if herr == "" {
+			steps, budgetAt = 0, stepBudget
+			err = sl.Catch(func() { res = scope.Eval(evalForm, 0) })
+		}
+		if c.Amb != "" {
+			if herr == "" {
+				err = ambOutcome(c.Amb, res, err)
+			}
+			ambLeave()
+		}
+	}
 	used := allocBytes() - a0
 	if herr != "" {
 		x.Fail("harness-pool", "%s", herr)
 		return
 	}
 	oc := classify(err)
-	obs := map[string]any{"call": renderFmt(c.Ctl, c.Args), "outcome": oc.kind}
+	if via != "" && (oc.kind == "fault" || oc.kind == "raw-panic" || oc.kind == "undocumented" || oc.kind == "budget") {
+		// Differential: (format nil ...) in the default state. The same failure
+		// there belongs to the directive (plain signature).
+		_, err2, _ := fmtCall(newScope(), "", c.Ctl, c.Args)
+		if o2 := classify(err2); o2.kind == oc.kind && o2.fault == oc.fault {
+			via = ""
+			x.Cover("fmt-dest:same-failure-with-format-nil")
+		}
+	}
+	obs := map[string]any{"call": renderFmtDest(c.Dest, c.Ctl, c.Args) + ambText(c.Amb), "outcome": oc.kind}
 	x.Observe(obs)
 	x.Cover("fmt-outcome:" + oc.kind)
 	if oc.err != nil {
 		obs["condition"] = oc.err.Class
 	}
+	call := renderFmtDest(c.Dest, c.Ctl, c.Args) + ambText(c.Amb)
 	switch oc.kind {
 	case "fault":
-		x.Fail(fmtFaultSig(c, oc), "%s => internal fault reported as %s: %s", renderFmt(c.Ctl, c.Args), oc.err.Class, oc.err.Msg)
+		if via != "" {
+			// specific to the destination / ambient state: no shrinking (the
+			// shrinker works on (format nil ...)); the directives name the construct
+			x.Fail(sigName("fault="+oc.fault+" fmt"+via+" dirs="+dirs), "%s => internal fault reported as %s: %s", call, oc.err.Class, oc.err.Msg)
+		} else {
+			x.Fail(fmtFaultSig(c, oc), "%s => internal fault reported as %s: %s", call, oc.err.Class, oc.err.Msg)
+		}
 	case "raw-panic":
-		x.Fail("raw-go-panic fmt dirs="+dirs, "%s => a bare Go panic value (%s) instead of a condition: %s", renderFmt(c.Ctl, c.Args), oc.err.GoType, oc.err.Msg)
+		x.Fail(sigName("raw-go-panic fmt"+via+" dirs="+dirs), "%s => a bare Go panic value (%s) instead of a condition: %s", call, oc.err.GoType, oc.err.Msg)
 	case "budget":
-		x.Fail("over-budget fmt dirs="+dirs, "%s => more than %d evaluation steps", renderFmt(c.Ctl, c.Args), stepBudget)
+		x.Fail(sigName("over-budget fmt"+via+" dirs="+dirs), "%s => more than %d evaluation steps", call, stepBudget)
 	case "undocumented":
-		x.Fail("not-a-condition fmt dirs="+dirs, "%s => signalled a non-condition: %v %s", renderFmt(c.Ctl, c.Args), oc.err.Chain, oc.err.Msg)
+		x.Fail(sigName("not-a-condition fmt"+via+" dirs="+dirs), "%s => signalled a non-condition: %v %s", call, oc.err.Chain, oc.err.Msg)
 	}
 	if allocBudget < used {
 		x.Fail("alloc fmt dirs="+dirs, "%s => allocated %d MiB", renderFmt(c.Ctl, c.Args), used>>20)
@@ -429,7 +610,7 @@ func fmtFaultSig(c *Case, oc outcome) string {
 		if skippedFmt(ct, ar) != "" || !shrinkSafe(ct) {
 			return "", false
 		}
-		_, e, h := fmtCall(newScope(), ct, ar)
+		_, e, h := fmtCall(newScope(), "", ct, ar)
 		o := classify(e)
 		if h != "" || o.kind != "fault" {
 			return "", false
